@@ -40,7 +40,10 @@ def gen_history(rng):
             ops.append(["cleanup", rng.sample(CAND, rng.randint(0, 3))])
     if ops[-1][0] != "cleanup":
         ops.append(["cleanup", rng.sample(CAND, rng.randint(0, 2))])
-    return {"ops": ops}
+    h = {"ops": ops}
+    if rng.random() < 0.3:
+        h["via_symlink"] = True
+    return h
 
 
 def _snap(root):
@@ -80,7 +83,15 @@ def run_history(ctx, hist):
 
     from dvc_data.hashfile.state import State
 
-    root = ctx.fresh("links")
+    base = ctx.fresh("links")
+    if hist.get("via_symlink"):
+        # root_dir (and with it every recorded path and every path in `used`) is reached through a symbolic
+        # link to the real directory; the caller uses the same unresolved paths throughout
+        os.makedirs(os.path.join(base, "real"))
+        root = os.path.join(base, "lnk")
+        os.symlink(os.path.join(base, "real"), root)
+    else:
+        root = base
     tmp = os.path.join(root, ".tmp")
     os.makedirs(tmp)
     state = State(root_dir=root, tmp_dir=tmp)
@@ -238,7 +249,7 @@ def run_history(ctx, hist):
     exp = vL([vL([vB(q) for q in sorted(final, key=order)]),
               vL([vB(q) for q in sorted(tab, key=order)]),
               vL([vL([vB(q) for q in sorted(set(u), key=order)]) for u in removed_lists])])
-    impl.rm_rf(root)
+    impl.rm_rf(base)
     nontrivial = any(removed_lists) and len(final) > 0
     return clist(model_ops), exp, problems, nontrivial, removed_lists
 
@@ -246,6 +257,9 @@ def run_history(ctx, hist):
 def run_links(ctx, n):
     items = []
     corpus = [
+        # root_dir reached through a symlinked directory; the used links are listed by the same unresolved paths
+        {"via_symlink": True, "ops": [["write", "f1"], ["record", "f1"], ["write", "d1"], ["record", "d1"], ["write", "f2"],
+                                      ["record", "f2"], ["cleanup", ["f1", "d1"]], ["cleanup", ["d1"]]]},
         # a file inside a recorded directory link is rewritten in place within the recorded second
         {"ops": [["write", "d1"], ["record", "d1"], ["touch", "d1/x"], ["cleanup", []]]},
         {"ops": [["write", "d2"], ["record", "d2"], ["touch", "d2"], ["cleanup", ["f1"]]]},
